@@ -24,7 +24,7 @@ PROPS = {
     "C11": [(codec.C11, ["C11_", "X_Harness"])],
     "C04": [(chan.C04, ["C04_", "C13_NoCrash"]), (transport, ["C04_Transport"])],
     "C05": [(pending, ["C05_"])],
-    "C13": [(chan.C13, ["C13_"]), (transport, ["C13_Transport"])],
+    "C13": [(chan.C13, ["C13_"]), (transport, ["C13_Transport"]), (clientlife, ["C13_ClientReleases"])],
     "C12": [(tcp_stream.C12, ["C12_"])],
     "C17": [(chan.C17, ["C17_", "C13_NoCrash"])],
     "C18": [(srvlife, ["C18_"])],
